@@ -21,7 +21,9 @@ const maxU32 = 0xFFFFFFFF
 // ---------- replayable input ----------
 
 // Sig says how a signature byte string is produced: Key >= 0 signs with the key of that peer
-// *position* (index into the key table), Key = -1 is 65 bytes of garbage, Key = -2 is empty.
+// *position* (index into the key table), Key = -1 is 65 bytes of garbage, Key = -2 is the empty
+// slice, Key = -3 is a nil slice (JSON null on the wire), Key = -4 is the field left out of the
+// JSON object altogether (decodes to nil), Key = -5 is a single byte.
 // Hash selects what is signed: 0 = the block (or empty block, by the message's ForEmpty) of the
 // proposer the message names, 1 = an unrelated 32-byte value, 2 = the other variant of the
 // named proposer's block (empty <-> non-empty).
@@ -183,13 +185,60 @@ func (r *run) pick(sel int, p uint32, empty bool) common.Uint256 {
 }
 
 func (r *run) mkSig(sg Sig, p uint32, empty bool) []byte {
-	switch {
-	case sg.Key == -1:
-		return r.w.garbage
-	case sg.Key < 0 || sg.Key >= len(r.h.Peers):
-		return []byte{}
+	if b, special := r.specialSig(sg); special {
+		return b
 	}
 	return r.w.sign(sg.Key, r.pick(sg.Hash, p, empty))
+}
+
+const (
+	sigGarbage = -1
+	sigEmpty   = -2
+	sigNil     = -3
+	sigMissing = -4
+	sigOneByte = -5
+)
+
+func (r *run) specialSig(sg Sig) ([]byte, bool) {
+	switch {
+	case sg.Key == sigGarbage:
+		return r.w.garbage, true
+	case sg.Key == sigNil || sg.Key == sigMissing:
+		return nil, true
+	case sg.Key == sigOneByte:
+		return []byte{7}, true
+	case sg.Key < 0 || sg.Key >= len(r.h.Peers):
+		return []byte{}, true
+	}
+	return nil, false
+}
+
+// dropJSONField removes one member of the JSON object inside a serialized consensus message.
+func dropJSONField(data []byte, field string) ([]byte, error) {
+	var outer vbft.ConsensusMsgPayload
+	if err := json.Unmarshal(data, &outer); err != nil {
+		return nil, err
+	}
+	var inner map[string]json.RawMessage
+	if err := json.Unmarshal(outer.Payload, &inner); err != nil {
+		return nil, err
+	}
+	if _, ok := inner[field]; !ok {
+		return nil, fmt.Errorf("no member %q", field)
+	}
+	delete(inner, field)
+	b, err := json.Marshal(inner)
+	if err != nil {
+		return nil, err
+	}
+	outer.Payload, outer.Len = b, uint32(len(b))
+	return json.Marshal(&outer)
+}
+
+// ownSigOK: the message's own signature verifies under the sender's key over the digest it carries.
+func (r *run) ownSigOK(sender uint32, h common.Uint256, sig []byte) bool {
+	k, ok := r.pos[sender]
+	return ok && r.w.verifies(k, h, sig)
 }
 
 // validFor: sig verifies under the key of consensus peer idx over the block of proposer p.
@@ -253,6 +302,29 @@ type outcome struct {
 	Done  bool
 }
 
+type unsignedHit struct {
+	Index int    `json:"op_index"`
+	Kind  string `json:"kind"`
+	Sig   string `json:"signature"`
+	Stage string `json:"stage"`
+}
+
+func sigKindName(sg Sig) string {
+	switch sg.Key {
+	case sigGarbage:
+		return "65 bytes of garbage"
+	case sigEmpty:
+		return "empty slice"
+	case sigNil:
+		return "absent (JSON null)"
+	case sigMissing:
+		return "absent (member missing)"
+	case sigOneByte:
+		return "one byte"
+	}
+	return fmt.Sprintf("signed with key #%d, hash selector %d", sg.Key, sg.Hash)
+}
+
 type observed struct {
 	Ops      []mOp
 	Results  []string // added | pool-error | dropped
@@ -266,6 +338,8 @@ type observed struct {
 	Unverif  bool
 	Double   bool
 	FirstBad string // kind of the first passing message that is not verified
+	Unsigned []unsignedHit // messages that reached the pool although their own signature does not verify
+	Rejected int           // messages dropped although their own signature verifies
 	ViaSigs  bool   // getCommitConsensus on the stored commit messages finds nothing (second path decides)
 }
 
@@ -303,6 +377,7 @@ func (r *run) execute() (*observed, error) {
 		m := mOp{Kind: op.Kind, Sender: op.Sender, Claimed: op.Claimed, Proposer: op.Proposer, ForEmpty: op.ForEmpty}
 		verified := true
 		double := false
+		own := false // ground truth: the message's own mandatory signature verifies under the sender's key
 		switch op.Kind {
 		case "proposal":
 			if !inPeers(op.Proposer) {
@@ -312,10 +387,12 @@ func (r *run) execute() (*observed, error) {
 			eblk := *r.block(op.Proposer, op.Variant, true)
 			hd, ehd := *blk.Header, *eblk.Header
 			bsig := r.sigOver(op.Sig, blk.Hash())
+			esig := r.sigOver(op.Sig, eblk.Hash())
 			hd.SigData = [][]byte{bsig}
-			ehd.SigData = [][]byte{r.sigOver(op.Sig, eblk.Hash())}
+			ehd.SigData = [][]byte{esig}
 			blk.Header, eblk.Header = &hd, &ehd
 			data, err = vbft.VerifC31ProposalMsg(&blk, &eblk, nil)
+			own = r.ownSigOK(op.Proposer, blk.Hash(), bsig) && r.ownSigOK(op.Proposer, eblk.Hash(), esig)
 			m.SigID = r.idOfSig(bsig)
 			m.Valid = r.validFor(op.Proposer, op.Proposer, false, bsig)
 			verified = m.Valid && inPeers(op.Proposer)
@@ -323,6 +400,10 @@ func (r *run) execute() (*observed, error) {
 			h := r.pick(op.MsgHash, op.Proposer, op.ForEmpty)
 			sg := r.mkSig(op.Sig, op.Proposer, op.ForEmpty)
 			data, err = vbft.VerifC31EndorseMsg(op.Claimed, op.Proposer, blkNum, h, op.ForEmpty, nil, sg)
+			if err == nil && op.Sig.Key == sigMissing {
+				data, err = dropJSONField(data, "endorser_sig")
+			}
+			own = r.ownSigOK(op.Sender, h, sg)
 			m.HashID = r.idOfHash(h)
 			m.Valid = r.validFor(op.Claimed, op.Proposer, op.ForEmpty, sg)
 			verified = m.Valid && inPeers(op.Claimed) && inPeers(op.Proposer)
@@ -346,6 +427,10 @@ func (r *run) execute() (*observed, error) {
 				}
 			}
 			data, err = vbft.VerifC31CommitMsg(op.Claimed, op.Proposer, blkNum, h, op.ForEmpty, nil, es, sg)
+			if err == nil && op.Sig.Key == sigMissing {
+				data, err = dropJSONField(data, "committer_sig")
+			}
+			own = r.ownSigOK(op.Sender, h, sg)
 			m.HashID = r.idOfHash(h)
 			m.Valid = r.validFor(op.Claimed, op.Proposer, op.ForEmpty, sg)
 			verified = verified && m.Valid && inPeers(op.Claimed) && inPeers(op.Proposer)
@@ -359,18 +444,27 @@ func (r *run) execute() (*observed, error) {
 			return nil, fmt.Errorf("serialize %s: %v", op.Kind, err)
 		}
 		stage, _ := r.env.VerifC31Receive(op.Sender, data)
+		passed := false
 		switch stage {
 		case vbft.VerifC31Added:
-			m.OK = true
+			passed = true
 			o.Results = append(o.Results, "added")
 		case vbft.VerifC31PoolErr:
-			m.OK = true
+			passed = true
 			o.Results = append(o.Results, "pool-error")
 		case vbft.VerifC31BadVerify:
-			m.OK = false
 			o.Results = append(o.Results, "dropped")
 		default:
 			return nil, fmt.Errorf("receive stopped at stage %q", stage)
+		}
+		// The case records the ground truth, not msg.Verify's verdict: the model predicts the drop.
+		m.OK = own
+		if passed && !own {
+			// ORACLE (receive gate): a message whose own signature does not verify reached the pool.
+			o.Unsigned = append(o.Unsigned, unsignedHit{Index: len(o.Ops), Kind: op.Kind, Sig: sigKindName(op.Sig), Stage: stage})
+		}
+		if !passed && own {
+			o.Rejected++
 		}
 		if m.OK && !verified {
 			if !o.Unverif {
@@ -465,11 +559,8 @@ func sortOutcomes(l []outcome) {
 }
 
 func (r *run) sigOver(sg Sig, h common.Uint256) []byte {
-	switch {
-	case sg.Key == -1:
-		return r.w.garbage
-	case sg.Key < 0 || sg.Key >= len(r.h.Peers):
-		return []byte{1}
+	if b, special := r.specialSig(sg); special {
+		return b
 	}
 	if sg.Hash != 0 {
 		h[7] ^= 0x55
@@ -503,23 +594,38 @@ func (r *run) hasValidSig(i, p uint32, commits []vbft.VerifC31CommitView, esigs 
 
 // badKind names what is unverified about the first passing unverified message.
 func (r *run) badKind(op Op, m mOp) string {
-	_, claimedPeer := r.pos[op.Claimed]
+	// Only called for a message whose own signature verifies under the sender's key over the digest
+	// it carries: what remains unverified is one of the documented gaps.
+	_, proposerPeer := r.pos[op.Proposer]
 	switch op.Kind {
 	case "proposal":
-		return "proposal-second-block"
-	case "endorse":
-		if !m.Valid || !claimedPeer {
-			return "endorse-msg-claimed-endorser"
+		if op.Variant != 0 {
+			return "proposal-second-block"
 		}
-		return "endorse-msg-proposer-not-a-peer"
+		return "unclassified-proposal"
+	case "endorse":
+		switch {
+		case op.Claimed != op.Sender:
+			return "endorse-msg-claimed-endorser"
+		case !proposerPeer:
+			return "endorse-msg-proposer-not-a-peer"
+		case op.MsgHash != 0:
+			return "endorse-msg-hash-not-bound"
+		}
+		return "unclassified-endorse"
 	}
 	for _, e := range m.Ends {
 		if _, ok := r.pos[e.Idx]; !e.Valid || !ok {
 			return "commit-msg-endorser-sigs"
 		}
 	}
-	if !m.Valid || !claimedPeer {
+	switch {
+	case op.Claimed != op.Sender:
 		return "commit-msg-claimed-committer"
+	case !proposerPeer:
+		return "commit-msg-proposer-not-a-peer"
+	case op.MsgHash != 0:
+		return "commit-msg-hash-not-bound"
 	}
-	return "commit-msg-proposer-not-a-peer"
+	return "unclassified-commit"
 }
